@@ -302,6 +302,9 @@ def run_locate(img, inp, mm, ms, tn):
               percentile=inp["percentile"], preprocess=inp["preprocess"], engine="python")
     if inp.get("separation") is not None:
         kw["separation"] = tuple(inp["separation"])
+    # the same pixel values in another memory layout (the same one for every call of a case)
+    from .c06 import memory_layout
+    img = memory_layout(img, int(img.size) + int(inp.get("grid_seed", 0)))[0]
     with warnings.catch_warnings():
         warnings.simplefilter("ignore")
         with np.errstate(all="ignore"):
